@@ -232,7 +232,7 @@ pub fn check(sc: &Scenario, env: &mut Env) -> Result<Outcome, HarnessError> {
                     out.violate("C15", "readtarget", wi, format!("cycle at {:?} reported twice", link), vec![format!("dup-error:{}", link)]);
                 }
                 seen_cycles.push(link.as_str());
-                if !e.cycle || e.kind != "Other" || !e.display.contains(e.path.as_deref().unwrap_or("\u{0}")) {
+                if !e.cycle || e.kind != "Other" || !e.display.contains(lossy(e.path.as_deref().unwrap_or("\u{0}")).as_str()) {
                     out.violate(
                         "C15",
                         "readtarget",
